@@ -100,3 +100,11 @@ package walk
 //@     invariant depth: len(stack) == 0 ==> vdepth[visitor] == 0
 //@     invariant depthTop: len(stack) > 0 ==> vdepth[visitor] == (stack[len(stack) - 1].BranchIndex >= 1 ? len(stack) : len(stack) - 1)
 //@     invariant open: forall i int :: 0 <= i && i < vdepth[visitor] ==> vopen[visitor][i] == stack[i].Node
+
+// SetError: a nil error is not an error - it neither stops the walk nor changes the recorded error; a non-nil one
+// stops the walk and is kept (joined with an earlier one).
+//@ func (s *cancelableVisitorHandler) SetError(err error)
+//@   requires s != nil
+//@   modifies s.err, s.done
+//@   ensures nilIsNoop: err == nil ==> s.done == old(s.done) && s.err == old(s.err)
+//@   ensures stops: err != nil ==> s.done && s.err != nil
